@@ -589,6 +589,11 @@ def i_accessor(F, res):
                         idx = "?"
                         for o in mir.provenance(f, du, rv["ops"][0], transparent_extra=("std::ops::Deref::deref", "std::vec::Vec::<T, A>::as_slice", "std::convert::AsRef::as_ref", "std::borrow::Borrow::borrow")):
                             if o.kind == "arg" and o.local == 1:
+                                # an arm shared by an or-pattern binds the same name under each variant: only the binding of
+                                # the variant in hand counts
+                                casts = [p_[4:] for p_ in o.proj if p_.startswith(" as ")]
+                                if casts and casts[0] != vname:
+                                    continue
                                 nums = [p_[1:] for p_ in o.proj if p_[:1] == "." and p_[1:].isdigit()]
                                 idx = nums[-1] if nums else "?"
                         got.add(idx)
